@@ -31,6 +31,10 @@ class Opts:
         self.p_through = 0.15
         self.p_passthrough = 0.2
         self.p_deep_link = 0.3
+        self.p_twin_leaf = 0.0              # some routine gets a twin of one of its port-less leaves (same definition, other name and type)
+        self.p_undeclared_param = 0.0       # a deep-linked parameter is not listed in its routine's input_params
+        self.locals_counts = [0, 0, 1, 2, 3]   # number of local variables of a node that has parameters
+        self.p_local_chain = 0.5            # a local defined through the previous one
         self.p_const_width = 0.25          # a leaf carries a constant resource `width` (type other)
         self.p_output_child_res = 0.3      # … which its parent mentions in the declared size of an output register
         self.leaf_outputs = [0, 1, 1, 1, 2]   # number of output ports of a leaf that has inputs
@@ -257,13 +261,17 @@ def _decorate(rng, node, opts, is_root, under_rep=False, no_mult=False):
         # child's resource in the parent's scope
         node["input_params"][rng.randrange(k)] = rng.choice(sorted(RES))
     scope = list(node["input_params"])
-    nloc = rng.choice([0, 0, 1, 2]) if scope else 0
+    nloc = rng.choice(opts.locals_counts) if scope else 0
+    prev_local = None
     for i in range(nloc):
         cand = [s for s in POOL if s not in scope] + [f"v{i}"]
         v = rng.choice(cand)
         for _ in range(20):
             # locals stay positive (they feed counts, ratios, sizes); resources may use the full language
             t = gen_poly(rng, scope, 1, positive=True)
+            if prev_local is not None and rng.random() < opts.p_local_chain:
+                # a CHAIN of definitions: this local is defined through the previous one (a = x+1, b = 2*a, c = b+3)
+                t = E.bin_("+", E.bin_("*", E.num(rng.randint(1, 3)), E.sym(prev_local)), E.num(rng.randint(0, 3)))
             if rng.random() < 0.2:
                 t = E.app("ceiling", E.bin_("/", t, E.num(rng.choice([2, 3]))))
             if _generic(rng, t):
@@ -272,6 +280,7 @@ def _decorate(rng, node, opts, is_root, under_rep=False, no_mult=False):
             t = E.bin_("+", E.sym(scope[0]), E.num(1))
         node["local_variables"].append((v, t))
         scope.append(v)
+        prev_local = v
     rng.shuffle(node["local_variables"]) if rng.random() < 0.5 else None
     node["_scope"] = scope
     if node["repetition"] == "PENDING":
@@ -305,6 +314,18 @@ def _decorate(rng, node, opts, is_root, under_rep=False, no_mult=False):
                 ch.setdefault("_clash_hint", []).append(src)   # a name the child may well use for one of its own port sizes
     node["linked_params"] = list(links.items())
     rng.shuffle(node["linked_params"])
+    # a parameter that receives its value through a DEEP link need not be declared by the routine that uses it (the forwarding
+    # link created by the preprocessing names it anyway): leave the declaration out now and then
+    if opts.p_undeclared_param:
+        for src_, tgts_ in node["linked_params"]:
+            for path_, p_ in tgts_:
+                if "." in path_ and rng.random() < opts.p_undeclared_param:
+                    cn_, gn_ = path_.split(".", 1)
+                    ch_ = next((c for c in node["children"] if c["name"] == cn_), None)
+                    g_ = next((g for g in (ch_["children"] if ch_ else []) if g["name"] == gn_), None)
+                    if g_ is not None and p_ in g_["input_params"] and not any(p_ == t2 and gn_ == c2 for _, ts2 in ch_["linked_params"] for c2, t2 in ts2):
+                        g_["input_params"] = [x for x in g_["input_params"] if x != p_]
+                        g_.setdefault("_undeclared", []).append(p_)
     # resources
     if node["repetition"] is None:
         child_res = {}
@@ -613,7 +634,33 @@ def gen_routine(rng: random.Random, opts: Opts | None = None):
     _strip(root)
     if rng.random() < opts.p_reserved_port_name:
         _reserved_port_name(rng, root)
+    if rng.random() < opts.p_twin_leaf:
+        _twin_leaf(rng, root)
     return root
+
+
+def _twin_leaf(rng, root):
+    """give some routine a TWIN of one of its port-less, parameter-less leaves: the same definition under another name and another
+    type (two gates with the same cost model)"""
+    cands = []
+
+    def rec(n):
+        if n["repetition"] is None:
+            for c in n["children"]:
+                if not c["children"] and not c["ports"] and not c["input_params"] and c["repetition"] is None and c["resources"]:
+                    cands.append((n, c))
+        for c in n["children"]:
+            rec(c)
+    rec(root)
+    if not cands:
+        return
+    par, leaf = rng.choice(cands)
+    import copy as _copy
+
+    twin = _copy.deepcopy(leaf)
+    twin["name"] = next(x for x in ["tw", "tw2", "tw3"] if all(c["name"] != x for c in par["children"]))
+    twin["type"] = rng.choice([t for t in ["twin_kind", "gate", "leaf", None] if t != leaf.get("type")])
+    par["children"].insert(par["children"].index(leaf) + rng.choice([0, 1]), twin)
 
 
 def _reserved_port_name(rng, root):
